@@ -1,11 +1,19 @@
 #!/usr/bin/env python3
-"""mkmut.py <out.diff> <file-in-repo> <old> <new>: writes a unified diff of one textual replacement (the repo is not modified)."""
+"""mkmut.py <out.diff> (<file-in-repo> <old> <new>)+ : writes a unified diff of textual replacements
+(the repository is not modified).  Tooling for building mutant / benign patches."""
 import difflib, sys
-out, f, old, new = sys.argv[1:5]
+out = sys.argv[1]
+trip = sys.argv[2:]
 repo = "/repo/"
-s = open(repo + f).read()
-if old not in s:
-    sys.exit("pattern not found in %s: %r" % (f, old[:60]))
-t = s.replace(old, new, 1)
-d = difflib.unified_diff(s.splitlines(True), t.splitlines(True), "a/" + f, "b/" + f)
+files = {}
+for i in range(0, len(trip), 3):
+    f, old, new = trip[i:i + 3]
+    s = files.get(f) or open(repo + f).read()
+    if old not in s:
+        sys.exit("pattern not found in %s: %r" % (f, old[:70]))
+    files[f] = s.replace(old, new, 1)
+d = []
+for f, t in files.items():
+    s = open(repo + f).read()
+    d += list(difflib.unified_diff(s.splitlines(True), t.splitlines(True), "a/" + f, "b/" + f))
 open(out, "w").write("".join(d))
